@@ -65,6 +65,7 @@ type WCase struct {
 	Tag       string   `json:"tag"`       // free text for evidence / signatures
 	CountOnly bool     `json:"countonly"` // do not project, only count destination calls (fault-free pilot run)
 	Ctor      string   `json:"ctor"`      // non-empty: a constructor-acceptance case for this constructor
+	Mech      bool     `json:"mech"`      // record the compressor's mechanism events (hook) as well
 	Pilot     bool     `json:"pilot"`     // fault-free pilot run that only counts destination calls
 }
 
@@ -177,6 +178,17 @@ type WEvent struct {
 	// Ctor
 	Ctor   string `json:"ctor"`
 	Stderr string `json:"stderr"`
+}
+
+// MechEvent is one hook event of the compressor (validated by DynMechTrace, ignored by WriterTrace).
+type MechEvent struct {
+	Ev   string `json:"ev"`
+	Case string `json:"case"`
+	M    string `json:"m"`
+	A    int    `json:"a"`
+	B    int    `json:"b"`
+	C    int    `json:"c"`
+	D    int    `json:"d"`
 }
 
 func epochData(d DataSpec, ep int) DataSpec {
@@ -323,6 +335,13 @@ func execWriterCase(c *WCase, arch int, emit func(interface{})) {
 	}
 	emit(WEvent{Ev: "Begin", Case: c.ID, Kind: c.Set.Kind, Impl: c.Set.Impl, Level: c.Set.Level,
 		Window: c.Set.Window, Accel: c.Set.accel(), Period: period, Arch: arch})
+	if c.Mech && c.Set.Impl == "fastgo" {
+		// mechanism events of the level 1/2 compressor, interleaved with the API events
+		fgflate.VerifSetCompressorTrace(func(ev string, a, b, cc, d int) {
+			emit(MechEvent{Ev: "Mech", Case: c.ID, M: ev, A: a, B: b, C: cc, D: d})
+		})
+		defer fgflate.VerifSetCompressorTrace(nil)
+	}
 	em := func(e WEvent) { emit(e) }
 	if c.CountOnly {
 		em = nil // only the pair comparison is recorded
